@@ -25,14 +25,23 @@ def hb(h):
     return cb(bytes.fromhex(h or ''))
 
 
+def root(r):
+    """the Root convention of the harness specs: missing / '' = 32 bytes 0x03, 'empty' = no bytes, else hex"""
+    if not r:
+        return cb(bytes([3]) * 32)
+    if r == 'empty':
+        return cb(b'')
+    return cb(bytes.fromhex(r))
+
+
 def height(h):
     return '(mkH %d %d)' % (h['rev'], h['h'])
 
 
 def header(h):
-    return ('{| hd_height := %s; hd_extra_len := %d; hd_mix := %s; hd_uncle := %s; hd_diff := %s; hd_bloom_len := %d; '
+    return ('{| hd_height := %s; hd_extra_len := %d; hd_mix := %s; hd_uncle := %s; hd_root := %s; hd_diff := %s; hd_bloom_len := %d; '
             'hd_nonce_len := %d; hd_gas_limit := %d; hd_gas_used := %d |}' % (
-                height(h['height']), h['extra_len'], hb(h['mix']), hb(h['uncle']), hb(h['diff']), h['bloom_len'],
+                height(h['height']), h['extra_len'], hb(h['mix']), hb(h['uncle']), root(h.get('root')), hb(h['diff']), h['bloom_len'],
                 h.get('nonce_len', 0), h['gas_limit'], h['gas_used']))
 
 
@@ -78,7 +87,7 @@ def cons_term(c):
     if k == 'bsc':
         return '(AnyVal (ConsBSC %d))' % c['ts']
     if k == 'eth':
-        return '(AnyVal (ConsETH %d))' % c['ts']
+        return '(AnyVal (ConsETH %d %s))' % (c['ts'], root(c.get('root')))
     if k == 'tss':
         return '(AnyVal ConsTSS)'
     raise ValueError(k)
@@ -118,7 +127,8 @@ def xsteps_term(specs, obs):
 
 
 def xcase_term(c):
-    return '(CX {| xc_now := %d; xc_steps := %s |})' % (c['extra']['now'], xsteps_term(c['xibc']['steps'], c['obs']))
+    return '(CX {| xc_now := %d; xc_native := %s; xc_steps := %s |})' % (
+        c['extra']['now'], hb(c['extra'].get('native')), xsteps_term(c['xibc']['steps'], c['obs']))
 
 
 def packet(p):
